@@ -19,9 +19,10 @@ if [ "$PAT" = "demo.sh" ]; then
   git apply MUTANT/patch.diff
 else
   cp MUTANT/*_test.go hermes/ 2>/dev/null
-  (cd hermes && go test -vet=off -count=1 -run "$PAT" . > /tmp/adopt_${NAME}_with.txt 2>&1); echo "with change: $(tail -1 /tmp/adopt_${NAME}_with.txt)" | tee -a $LOG
+  RACE=""; ls MUTANT/*_race_test.go >/dev/null 2>&1 && RACE="-race"
+  (cd hermes && go test $RACE -vet=off -count=1 -run "$PAT" . > /tmp/adopt_${NAME}_with.txt 2>&1); echo "with change: $(tail -1 /tmp/adopt_${NAME}_with.txt)" | tee -a $LOG
   git apply -R MUTANT/patch.diff
-  (cd hermes && go test -vet=off -count=1 -run "$PAT" . > /tmp/adopt_${NAME}_without.txt 2>&1); echo "without change: $(tail -1 /tmp/adopt_${NAME}_without.txt)" | tee -a $LOG
+  (cd hermes && go test $RACE -vet=off -count=1 -run "$PAT" . > /tmp/adopt_${NAME}_without.txt 2>&1); echo "without change: $(tail -1 /tmp/adopt_${NAME}_without.txt)" | tee -a $LOG
   git apply MUTANT/patch.diff
   for f in MUTANT/*_test.go; do rm -f hermes/$(basename $f); done
 fi
